@@ -1235,7 +1235,18 @@ func g10DeleteRemoves(r *Repo, rep *Report) {
 			if ifs, ok := s.b.Succs[0].Stmt.(*ast.IfStmt); ok && s.b.Succs[0].Kind == cfg.KindIfThen {
 				cond = ifs.Cond
 			}
+			// the "it is there" outcome of `err == nil` / `err != nil` is not a not-exist outcome; `!os.IsNotExist(err)` swaps
+			negated := false
+			if cond != nil {
+				if u, isU := ast.Unparen(cond).(*ast.UnaryExpr); isU && u.Op == token.NOT {
+					negated = true
+					cond = u.X
+				}
+			}
 			for i, succ := range s.b.Succs {
+				if negated {
+					i = 1 - i
+				}
 				ne := s.notExist
 				if cond != nil && i == 0 && (isOS(cond, "IsNotExist") || isErrNotExist(info, cond)) {
 					ne = true
